@@ -6,7 +6,7 @@ G123 == <<1, 2, 3>>
 Choices3 == << [pcT |-> 2, certT |-> 2, w |-> <<1, 1, 0>>, gens |-> <<2, 1>>],
                [pcT |-> 3, certT |-> 3, w |-> <<2, 1, 1>>, gens |-> <<3, 1, 2>>] >>
 AllMutations == {"version", "height+1", "height-1", "prev", "slot-same", "slot-future", "generator", "sig-wrongkey", "sig-wrongchain",
-                 "sig-stale", "sig-stale-mhg", "sig-stale-ts", "sig-stale-stateroot", "mhp+1", "mhg-zero", "mhg-noclaim", "ac-height-stale", "ac-beyond-precommit", "ac-beyond-nextparams",
+                 "sig-stale", "sig-stale-mhg", "sig-stale-ts", "sig-stale-stateroot", "mhp+1", "mhg-zero", "mhg-deny-latest", "mhg-noclaim", "ac-height-stale", "ac-beyond-precommit", "ac-beyond-nextparams",
                  "ac-empty-wrong-height", "ac-badsig", "ac-wrongblock", "ac-halfempty", "ac-lowweight", "txroot", "assetroot", "eventroot",
                  "stateroot", "vhash", "tx-static", "payload-size"}
 NodeView == <<chain, vstack, fin, temp>>
